@@ -259,7 +259,8 @@ def corpus():
         for keys in ([], [1], [2, 1], [1, 2], [1, 1], [1, 2, 3], [3, 2, 1], [2, 3, 1], [2, 1, 3], [1, 3, 2],
                      [3, 1, 2], [1, 2, 3, 0], [3, 3, 3, 3, 3], [1, 2, 1, 2, 1, 2], [0, 1, 2, 3, 2, 1, 0]):
             for algo in SELECTORS:
-                sc += [arr_op(esz, keys), sort_op("raw", algo), arr_op(esz, keys), sort_op("vec", algo)]
+                sc += [arr_op(esz, keys), sort_op("raw", algo), arr_op(esz, keys), sort_op("vec", algo),
+                       arr_op(esz, keys), sort_op("rawn", algo), "rev rawn"]
             # random pivot: draw the last index while it holds the strict maximum, five times, then others
             n = len(keys)
             if n:
